@@ -36,11 +36,12 @@ Definition with_bytes (c : cfg) : cfg :=
 (* guard of finding C12 bytes-overrun: some byte string / string in the input declares a length
    larger than the input that remains.  decodeBytes allocates the declared length and accepts the
    short read (zero-filled); the repaired decodeBytes (cfg with_bytes) fails instead, so the two
-   decoders disagree on the outcome exactly on these inputs *)
+   decoders disagree on the outcome exactly on these inputs; when both fail, the guard is the
+   allocation itself (a string is copied once more by the []byte -> string conversion: factor 2) *)
 Definition bytes_overrun (t : ty) (bs : list byte) : bool :=
   match decode_res current t bs, decode_res (with_bytes current) t bs with
   | Ok _, Err _ => true
-  | Err _, Err _ => alloc_budget bs <? decode_cost current t bs
+  | Err _, Err _ => alloc_budget bs <? 2 * decode_cost current t bs
   | _, _ => false
   end.
 
